@@ -289,7 +289,9 @@ def oracle(case, impl):
             return None
         if name not in ALLOWED:
             return "leaks a bare %s" % name
-        if who is None or (who["t"] != "self" and m.split(":")[0] not in TREE and not m.startswith("iter:")):
+        tree = m.split(":")[0] in TREE or m.startswith("iter:")
+        if who is None or (who["t"] != "self" and not (tree and name == "AccessDenied")):
+            # tree calls: only an AccessDenied of a query on the parent / a child may carry that pid
             return "%s carries another pid than the object's" % name
         if name == "NoSuchProcess" and not gone and who["t"] == "self":
             return "raises NoSuchProcess although the process is still there"
